@@ -506,6 +506,11 @@ func (ce *CEnv) evalCall(e *CExpr) Val {
 
 // valAsSort converts a value to a term of the wanted sort.
 func (ex *Exec) valAsSort(v Val, s *Sort) *Term {
+	if ex.cur != nil {
+		if t, ok := ex.adtArg(ex.cur, v, s); ok {
+			return t
+		}
+	}
 	switch x := v.(type) {
 	case SV:
 		if x.T.Sort == s {
